@@ -415,6 +415,7 @@ func (r *Run) crashAndRecover(b *Block) {
 		c.InBlock = false
 		c.Blocks++
 		r.AppHashes = append(r.AppHashes, c.App.LastCommitID().Hash)
+		r.logf("H%d commit %x", c.Height, c.App.LastCommitID().Hash)
 		return
 	}
 	// restart
@@ -429,6 +430,7 @@ func (r *Run) crashAndRecover(b *Block) {
 		nc.Height = nc.App.LastBlockHeight()
 		r.AppHashes = append(r.AppHashes, nc.App.LastCommitID().Hash)
 		r.Stats.Inc("fault.crash_after_durable")
+		r.logf("H%d commit %x", nc.Height, nc.App.LastCommitID().Hash)
 		return
 	}
 	if nc.App.LastBlockHeight() != hdr.Height-1 {
